@@ -4,8 +4,9 @@ func init() {
 	Properties = append(Properties, &PropertySpec{
 		ID: "D01",
 		Harnesses: []HarnessSpec{
-			{Name: "C01_step", Expect: []string{"end"}, Quick: grid([]string{"M", "P", "op", "opmode", "amode", "bmode", "uf"}, []int{8}, []int{2}, []int{-1}, []int{-1}, []int{1, 4, 7}, []int{5, 6}, []int{1})},
-			{Name: "C01_step_canary", Role: "canary", Quick: grid([]string{"M", "P", "op", "opmode", "amode", "bmode", "uf"}, []int{8}, []int{2}, []int{-1}, []int{-1}, []int{1}, []int{5}, []int{1})},
+			{Name: "C01_step", Expect: []string{"end"}, Quick: []Params{{"M": 5, "P": 2, "amode": 7, "bmode": 5},{"M": 13, "P": 2, "amode": 7, "bmode": 5}, {"M": 5, "P": 2}}},
+			{Name: "C04_exec", Expect: []string{"end"}, Quick: []Params{{"M": 3, "P": 1}, {"M": 5, "P": 2},{"M": 8, "P": 3}, {"M": 13, "P": 2}, {"M": 16, "P": 2}}},
+			{Name: "C11_step", Expect: []string{"end"}, Quick: []Params{{"M": 3, "P": 1}, {"M": 5, "P": 2},{"M": 8, "P": 3}, {"M": 13, "P": 2}, {"M": 16, "P": 2}}},
 		},
 	})
 }
